@@ -210,6 +210,39 @@ def save_replay(pid, seed, idx, src, meta):
     return dst
 
 
+def load_known(pid):
+    out = {}
+    try:
+        for line in open(KNOWN):
+            line = line.strip()
+            if not line.startswith("open:"):
+                continue
+            f = line[5:].split()
+            prop = next((x[9:] for x in f if x.startswith("property=")), "")
+            key = next((x[4:] for x in f if x.startswith("key=")), "")
+            what = " ".join(x for x in f if not x.startswith("property=") and not x.startswith("key="))
+            if prop == pid and key:
+                out[key] = what
+    except OSError:
+        pass
+    return out
+
+
+def race_keys(pid, text):
+    """finding keys of the data-race reports in a -race log: <pid>/race/<first circl function of the report>"""
+    keys = []
+    for blk in re.findall(r"WARNING: DATA RACE\n(.*?)\n==================", text, flags=re.S):
+        fn = None
+        for m in re.finditer(r"^\s+(github\.com/cloudflare/circl/[^\s(]+(?:\([^)]*\))?[^\s(]*)\(", blk, flags=re.M):
+            name = m.group(1)
+            if "/zz_verif/" in name:
+                continue
+            fn = name.replace("github.com/cloudflare/circl/", "")
+            break
+        keys.append("%s/race/%s" % (pid, fn or "unattributed"))
+    return keys
+
+
 def run_property(pid, tier, seed):
     P = PROPS[pid]
     t0 = time.time()
@@ -249,8 +282,23 @@ def run_property(pid, tier, seed):
     # ---- collect
     violations = []
     inconclusive = []
+    known = load_known(pid)
+    race_known_hit = {}
     for r in results:
         text = open(r["log"], errors="replace").read()
+        if "WARNING: DATA RACE" in text:
+            rk = race_keys(pid, text)
+            new = sorted(set(k for k in rk if k not in known))
+            for k in rk:
+                if k in known:
+                    race_known_hit[k] = race_known_hit.get(k, 0) + 1
+            if new:
+                m = dict(property=pid, bin=r["spec"]["name"], config=r["cfg"]["name"], shard=r["shard"], tier=tier, seed=seed, env=r["env"], args=r["args"][1:], kind="log", keys=new)
+                violations.append(save_replay(pid, seed, len(violations), r["log"], m))
+                sys.stdout.write("data race(s) reported by the race detector: %s\n" % ", ".join(new))
+                continue
+            if r["rc"] == 66 and not re.search(r"(?m)^--- FAIL", text):
+                continue  # only known races: not a violation
         if r["rc"] == 0:
             continue
         if r["rc"] == -999:
@@ -285,6 +333,9 @@ def run_property(pid, tier, seed):
             else:
                 inconclusive.append("worker died rc=%s: %s" % (r["rc"], r["log"]))
     ev = merge_evidence(pid, tier, seed, outdir, P, unavailable, time.time() - t0, len(violations), results)
+    for k, n in race_known_hit.items():
+        ev["coverage"]["known_findings_hit"][k] = ev["coverage"]["known_findings_hit"].get(k, 0) + n
+        ev["coverage"]["known_findings_hit_what"][k] = known[k]
     for key, what in sorted(ev["coverage"].get("known_findings_hit_what", {}).items()):
         print("KNOWN-FINDING: property=%s %s (key=%s, %d cases excluded)" % (pid, what, key, ev["coverage"]["known_findings_hit"].get(key, 0)))
     with open(os.path.join(EVID, pid + ".json"), "w") as f:
